@@ -71,6 +71,7 @@ func c05Shapes() []c05Shape {
 		{name: "custom reason", h: H("X-R", "1"), line: "Very Fine"},
 		{name: "no reason", h: H("X-R", "2"), line: "-"},
 		{name: "connection-named", h: H("Connection", "X-Hop, keep-alive", "X-Hop", "HOPMARK1", "Keep-Alive", "timeout=5, max=HOPMARK2")},
+		{name: "two connection lines", h: H("Connection", "keep-alive", "Connection", "X-Hop2", "X-Hop2", "HOPMARK8", "Keep-Alive", "timeout=5, max=HOPMARK9")},
 		{name: "upgrade+proxy", h: H("Upgrade", "HOPMARK3", "Proxy-Authenticate", "Basic realm=HOPMARK4", "Proxy-Authentication-Info", "HOPMARK5", "Proxy-Connection", "HOPMARK6", "Te", "HOPMARK7")},
 		{name: "origin sends cache fields", h: H("Age", "3", "X-From-Cache", "1", "X-Httpcache-Status", "HIT")},
 		{name: "no Date", h: H("X-NoDate", "1")},
